@@ -25,6 +25,7 @@ ASSUMPTIONS = [
     "ConvexCombinationTransform is not declared bijective (maps onto a (K-1)-dimensional surface) and is outside 'each invertible transform'",
 ]
 BUDGET = {"quick": 70, "thorough": 700}
+ROUNDS = {"thorough": 10}
 FLOORS = {"logdet_comparisons": {"quick": 1500, "thorough": 12000}, "inverse_round_trips": {"quick": 1000, "thorough": 8000},
           "transformed_parameter_calls": 200, "tree_model_calls": 100, "kinds": 13}
 
